@@ -171,13 +171,13 @@ def getcUnchecked : M (Option Nat) := do
 
 /-- `io_error_if( read(ptr, n) != n )` into an existing buffer (`buf.length ≥ n` is the caller's obligation, checked here).
     Since /repo 84ae407 every row / packet read of the three readers throws on a short count (before: the bytes not
-    delivered kept their previous content and were used as pixels). Returns the new buffer and the count delivered (= n). -/
-def readInto (site : String) (buf : List Nat) (n : Nat) : M (List Nat × Nat) := do
+    delivered kept their previous content and were used as pixels). Returns the new buffer (a short read never reaches the caller any more, so no stale byte is ever used as data). -/
+def readInto (site : String) (buf : List Nat) (n : Nat) : M (List Nat) := do
   if n > buf.length then ubAt ("heap-buffer-overflow@" ++ site) "read(ptr, n) with n larger than the buffer"
   else
     let got ← readSome n
     if got.length < n then ioErr
-    else pure (got ++ buf.drop got.length, got.length)
+    else pure (got ++ buf.drop got.length)
 
 /-- allocation of `n` bytes (n as the size_t the C++ computes, already wrapped to 64 bits) -/
 def alloc (n : Int) : M Unit :=
@@ -230,13 +230,12 @@ def checkSettings (st : Settings) (dimx dimy w h : Int) : M Unit :=
   if st.x0 < 0 ∨ st.y0 < 0 ∨ dimx < 0 ∨ dimy < 0 ∨ st.x0 + dimx > w ∨ st.y0 + dimy > h then ioErr else pure ()
 
 /-- pixels `[x0, x0+dw)` of a row buffer of `row.length` bytes, `bpp` bytes each, as `cc_policy.read` reads them;
-    `used` = number of leading bytes of the buffer that the last read delivered (the rest is stale) -/
-def sliceRow (site : String) (row : List Nat) (bpp : Nat) (x0 dw : Int) (got : Nat) : M (List Nat) := do
+    (the whole buffer was delivered by the preceding read: `readInto` throws on a short count) -/
+def sliceRow (site : String) (row : List Nat) (bpp : Nat) (x0 dw : Int) : M (List Nat) := do
   if dw ≤ 0 then pure []      -- std::copy with end <= begin copies nothing (end < begin cannot terminate early: see callers)
   else if x0 < 0 ∨ (x0 + dw) * bpp > row.length then
     ubAt ("heap-buffer-overflow@" ++ site) "sub-rectangle columns outside the row buffer (settings are not checked against the image width)"
   else
-    if Int.ofNat got < (x0 + dw) * bpp then setTaint ("short row read used as pixel data in " ++ site) else pure ()
     pure ((row.drop (x0.toNat * bpp)).take (dw.toNat * bpp))
 
 def chunks (k : Nat) : Nat → List Nat → List (List Nat)
@@ -387,19 +386,19 @@ def lookupAll (site why : String) (pal : Palette) (dst : Dst) (declared : Int :=
     | none => ubAt site why
 
 /-- rows loop shared by read_palette_image / read_data_15 / read_data:
-    `rowFn y row got` turns the row buffer into destination pixels -/
+    `rowFn row` turns the row buffer into destination pixels (and the buffer it leaves behind) -/
 def rowsLoop (i : Info) (pitch : Int) (st : Settings) (y0 : Int) (site : String)
-    (rowFn : List Nat → Nat → M (List Nat × List Nat)) : Nat → Int → List Nat → Dest → M Dest
+    (rowFn : List Nat → M (List Nat × List Nat)) : Nat → Int → List Nat → Dest → M Dest
   | 0, _, _, d => pure d
   | n + 1, y, row, d => do
     seekSet (getOffset i pitch (y + y0))
-    let (row, got) ← readInto site row pitch.toNat
-    let (px, row) ← rowFn row got
+    let row ← readInto site row pitch.toNat
+    let (px, row) ← rowFn row
     let d ← d.setRow site y px
     rowsLoop i pitch st y0 site rowFn n (y + 1) row d
 
 /-- the inner loop of read_palette_image over one (manipulated) row buffer -/
-def paletteRowPixels (site : String) (i : Info) (st : Settings) (dimx : Int) (pal : Palette) (row : List Nat) (got : Nat) : M (List Nat) := do
+def paletteRowPixels (site : String) (i : Info) (st : Settings) (dimx : Int) (pal : Palette) (row : List Nat) : M (List Nat) := do
   let ppb : Int := if i.bpp == 8 then 1 else if i.bpp == 4 then 2 else 8      -- pixels per byte
   -- it = rh.begin() + top_left.x ; end = it + dim.x ; for (; it != end; ++it)
   if dimx < 0 then
@@ -409,7 +408,6 @@ def paletteRowPixels (site : String) (i : Info) (st : Settings) (dimx : Int) (pa
     ubAt ("heap-buffer-overflow@" ++ site) "sub-rectangle columns outside the row buffer (settings are not checked against the image width)"
   else
     let idx := ((rowIndices i.bpp row).drop st.x0.toNat).take dimx.toNat
-    if Int.ofNat got * ppb < st.x0 + dimx then setTaint ("short row read used as pixel data in " ++ site) else pure ()
     lookupAll ("vector-index@" ++ site) "palette index from the pixel data is >= the palette size declared by the header" pal st.dst (declaredEntries i) idx []
 
 /-- read_palette_image -/
@@ -420,9 +418,9 @@ def readPaletteImage (i : Info) (pitch : Int) (st : Settings) (dimx dimy : Int) 
   if pitch == 0 ∧ dimy > 0 then
     ubAt ("vector-index@" ++ site) "rh.data() == &_row_buffer[0] on an empty row buffer (zero width taken from the file)"
   else
-  rowsLoop i pitch st st.y0 site (fun row got => do
+  rowsLoop i pitch st st.y0 site (fun row => do
       let row := manip i.bpp row                 -- byte_manipulator(rh.buffer()): in place, the buffer persists
-      let px ← paletteRowPixels site i st dimx pal row got
+      let px ← paletteRowPixels site i st dimx pal row
       pure (px, row))
     dimy.toNat 0 (List.replicate pitch.toNat 0) d
 
@@ -491,10 +489,9 @@ def readData15 (i : Info) (pitch : Int) (st : Settings) (dimx dimy : Int) (d : D
   if pitch == 0 ∧ dimy > 0 then
     ubAt ("vector-empty@" ++ site) "&row.front() on an empty row buffer (zero width taken from the file)"
   else
-  rowsLoop i pitch st st.y0 site (fun row got => do
+  rowsLoop i pitch st st.y0 site (fun row => do
       alloc (wrapU 64 (wrapU 64 i.width * 3))                -- image_t img_row(_info._width, 1)
       let px ← row15 site ms i.width.toNat row []
-      if Int.ofNat got < i.width * 2 then setTaint ("short row read used as pixel data in " ++ site) else pure ()
       -- beg = v.row_begin(0) + top_left.x ; end = beg + dim.x  over an rgb8 row of _info._width pixels
       if dimx ≤ 0 then pure ([], row)
       else if st.x0 < 0 ∨ st.x0 + dimx > i.width then
@@ -509,8 +506,8 @@ def readData (i : Info) (pitch : Int) (st : Settings) (dimx dimy : Int) (bpp : N
   if pitch == 0 then
     ubAt ("vector-empty@" ++ site) "&row.front() on an empty row buffer (zero width taken from the file)"
   else
-  rowsLoop i pitch st st.y0 site (fun row got => do
-      let px ← sliceRow site row bpp st.x0 dimx got
+  rowsLoop i pitch st st.y0 site (fun row => do
+      let px ← sliceRow site row bpp st.x0 dimx
       pure (if bpp == 3 then cvtBgr st.dst px else cvtBgra st.dst px, row))
     dimy.toNat 0 (List.replicate pitch.toNat 0) d
 
@@ -724,11 +721,10 @@ def scan (i : Info) : M Img := do
       let site := fScan ++ ":read_bit_row"
       finish sl4 (List.replicate pitch.toNat 0) (fun b => do
         if pitch == 0 then ubAt ("vector-empty@" ++ fScan ++ ":read_row_bits") "&_buffer.front() on an empty buffer" else
-        let (row, got) ← readInto site b.buf pitch.toNat
+        let row ← readInto site b.buf pitch.toNat
         let row := manip i.bpp row
         let idx := (rowIndices i.bpp row).take i.width.toNat
         let ppb : Int := if i.bpp == 8 then 1 else if i.bpp == 4 then 2 else 8
-        if Int.ofNat got * ppb < i.width then setTaint ("short row read used as pixel data in " ++ site) else pure ()
         let px ← lookupAll ("vector-index@" ++ site) "palette index from the pixel data is >= the palette size declared by the header" pal .rgba8 (declaredEntries i) idx []
         pure { dst := px ++ b.dst.drop px.length, buf := row })
     else if i.bpp == 4 then (if i.comp == 2 then ioErr else ioErr)
@@ -740,18 +736,15 @@ def scan (i : Info) : M Img := do
       let site := fScan ++ ":read_15_bits_row"
       finish sl3 (List.replicate pitch.toNat 0) (fun b => do
         if pitch == 0 then ubAt ("vector-empty@" ++ site) "&_buffer.front() on an empty buffer" else
-        let (row, got) ← readInto site b.buf pitch.toNat
+        let row ← readInto site b.buf pitch.toNat
         let px ← row15 site ms i.width.toNat row []
-        if Int.ofNat got < i.width * 2 then setTaint ("short row read used as pixel data in " ++ site) else pure ()
         pure { dst := px ++ b.dst.drop px.length, buf := row })
     else if i.bpp == 24 ∨ i.bpp == 32 then
       let sl := if i.bpp == 24 then sl3 else sl4
       finish sl [] (fun b => do
         if pitch < 0 then pure b else
         let site := fScan ++ ":read_row"
-        let (row, got) ← readInto site b.dst pitch.toNat
-        -- the whole scanline (padding included) is handed to the caller
-        if Int.ofNat got < pitch then setTaint ("short row read used as pixel data in " ++ site) else pure ()
+        let row ← readInto site b.dst pitch.toNat        -- the whole scanline (padding included) is handed to the caller
         pure { b with dst := row })
     else ioErr
 
@@ -875,9 +868,9 @@ def token (site : String) : Nat → List Nat → M (Option (List Nat))
       else token site fuel acc
     | none => if acc.length > 0 then pure (some acc) else pure none
 
-/-- the `for (x < _scanline_length)` loop of read_text_row; returns the row buffer and whether all samples were read -/
-def textSamples (site : String) (maxValue : Int) (process : Bool) : Nat → Nat → List Nat → M (List Nat × Bool)
-  | 0, _, row => pure (row, true)
+/-- the `for (x < _scanline_length)` loop of read_text_row; returns the row buffer -/
+def textSamples (site : String) (maxValue : Int) (process : Bool) : Nat → Nat → List Nat → M (List Nat)
+  | 0, _, row => pure row
   | n + 1, x, row => do
     match ← token site (← fuelHere) [] with
     | none => ioErr            -- /repo 8a05590: "Unexpected end of data or character in pnm file." (before: silent return)
@@ -902,16 +895,14 @@ def textRows (i : Info) (st : Settings) (dimx : Int) (sl : Nat) (srcCh : Nat) (s
     Nat → Bool → Int → List Nat → Dest → M Dest
   | 0, _, _, _, d => pure d
   | n + 1, process, y, row, d => do
-    let (row, complete) ← textSamples site i.maxValue process sl 0 row
-    if process ∧ complete then
+    let row ← textSamples site i.maxValue process sl 0 row
+    if process then
       -- copy_data: beg = src.row_begin(0) + top_left.x ; end = beg + dim.x
-      let px ← sliceRow (fRead ++ ":copy_data") row srcCh st.x0 dimx sl
+      let px ← sliceRow (fRead ++ ":copy_data") row srcCh st.x0 dimx
       let px := if srcCh == 1 then gray8To st.dst px else px
       let d ← d.setRow (fRead ++ ":copy_data") y px
       textRows i st dimx sl srcCh site n process (y + 1) row d
     else
-      -- an incomplete row returns before copy_data: the destination row keeps its previous content
-      if process then setTaint ("text row ended early (end of file or a non-numeric character): read_text_row returns silently, the destination row is never written (" ++ site ++ ")") else pure ()
       textRows i st dimx sl srcCh site n process (y + 1) row d
 
 /-- read_text_data -/
@@ -938,7 +929,7 @@ def bitsOf (row : List Nat) : List Nat :=
 def skipBinRows (site : String) (sl : Nat) : Nat → List Nat → M (List Nat)
   | 0, buf => pure buf
   | n + 1, buf => do
-    let (buf, _) ← readInto site buf sl
+    let buf ← readInto site buf sl
     skipBinRows site sl n buf
 
 /-- rows of read_bin_data; `unit` = pixels the row buffer holds per byte of `_scanline_length`
@@ -946,14 +937,13 @@ def skipBinRows (site : String) (sl : Nat) : Nat → List Nat → M (List Nat)
 def binRows (i : Info) (st : Settings) (dimx : Int) (sl : Nat) (site : String) : Nat → Int → List Nat → Dest → M Dest
   | 0, _, _, d => pure d
   | n + 1, y, buf, d => do
-    let (buf, got) ← readInto site buf sl
+    let buf ← readInto site buf sl
     if i.type == 4 then
       let buf := manipBits buf
       if dimx ≤ 0 then binRows i st dimx sl site n (y + 1) buf d
       else if st.x0 < 0 ∨ st.x0 + dimx > Int.ofNat sl * 8 then
         ubAt ("heap-buffer-overflow@" ++ site) "sub-rectangle columns outside the row buffer (settings are not checked against the image width)"
       else
-        if Int.ofNat got * 8 < st.x0 + dimx then setTaint ("short row read used as pixel data in " ++ site) else pure ()
         let px := gray1To st.dst (((bitsOf buf).drop st.x0.toNat).take dimx.toNat)
         let d ← d.setRow site y px
         binRows i st dimx sl site n (y + 1) buf d
@@ -964,9 +954,6 @@ def binRows (i : Info) (st : Settings) (dimx : Int) (sl : Nat) (site : String) :
       else if st.x0 < 0 ∨ st.x0 + dimx > Int.ofNat sl then
         ubAt ("heap-buffer-overflow@" ++ site) "sub-rectangle columns outside the row buffer (settings are not checked against the image width)"
       else
-        let hi : Int := if (st.x0 + dimx) * ch < Int.ofNat sl then (st.x0 + dimx) * ch else Int.ofNat sl
-        if Int.ofNat got < hi ∧ st.x0 * ch < hi then
-          setTaint ("short row read used as pixel data in " ++ site) else pure ()
         -- bytes beyond the first sl of the over-allocated buffer are value-initialised and never written
         let bytes := ((buf ++ List.replicate (sl * ch - sl) 0).drop (st.x0.toNat * ch)).take (dimx.toNat * ch)
         let px := if ch == 1 then gray8To st.dst bytes else bytes
@@ -999,9 +986,7 @@ def apply (i : Info) (st : Settings) (dimx : Int) (d : Dest) : M Dest := do
 
 /-- scanline reader: text row written straight into the iterator's buffer -/
 def scanTextRow (maxValue : Int) (sl : Nat) (dst : List Nat) : M (List Nat) := do
-  let (row, complete) ← textSamples (fScan ++ ":read_text_row") maxValue true sl 0 dst
-  if !complete then setTaint ("text row ended early (end of file or a non-numeric character): read_text_row returns silently, the rest of the scanline is stale (" ++ fScan ++ ":read_text_row)") else pure ()
-  pure row
+  textSamples (fScan ++ ":read_text_row") maxValue true sl 0 dst
 
 def scanRows (rowFn : List Nat → M (List Nat)) : Nat → List Nat → List (List Nat) → M (List (List Nat))
   | 0, _, acc => pure acc
@@ -1023,8 +1008,7 @@ def scan (i : Info) : M Img := do
     let rs ← scanRows (fun dst => do
         if i.type ≤ 3 then scanTextRow i.maxValue sl.toNat dst
         else
-          let (row, got) ← readInto site dst sl.toNat
-          if got < sl.toNat then setTaint ("short row read used as pixel data in " ++ site) else pure ()
+          let row ← readInto site dst sl.toNat
           pure (if i.type == 4 then manipBits row else row))
       i.height.toNat (List.replicate sl.toNat 0) []
     pure { hdr := [i.width, i.height, sl, i.height], pix := rs.reverse.flatten }
@@ -1101,8 +1085,8 @@ def dstRow (i : Info) (d : Dest) (y : Int) : Int := if i.origin then d.vh - 1 - 
 def rawRows (i : Info) (st : Settings) (dimx : Int) (bpp : Nat) (site : String) : Nat → Int → List Nat → Dest → M Dest
   | 0, _, _, d => pure d
   | n + 1, y, row, d => do
-    let (row, got) ← readInto site row row.length
-    let px ← sliceRow site row bpp st.x0 dimx got
+    let row ← readInto site row row.length
+    let px ← sliceRow site row bpp st.x0 dimx
     let d ← d.setRow site (dstRow i d y) (cvtBgrx bpp st.dst px)
     rawRows i st dimx bpp site n (y - 1) row d
 
@@ -1190,8 +1174,7 @@ def scanRows (i : Info) (sl : Nat) : Nat → Int → List Nat → List (List Nat
   | n + 1, pos, buf, acc => do
     seekSet (i.offset + (i.height - 1 - pos) * sl)
     let site := fScan ++ ":read_row"
-    let (buf, got) ← readInto site buf sl
-    if got < sl then setTaint ("short row read used as pixel data in " ++ site) else pure ()
+    let buf ← readInto site buf sl
     scanRows i sl n (pos + 1) buf (buf :: acc)
 
 def scan (i : Info) : M Img := do
